@@ -4,6 +4,15 @@ import json, os, re, sys
 ROOT = os.path.dirname(os.path.dirname(os.path.abspath(__file__)))
 props = {json.loads(l)["id"]: json.loads(l) for l in open(os.path.join(ROOT, "properties.jsonl"))}
 names = sorted(os.listdir(os.path.join(ROOT, "seeded")))
+# results of running an older snapshot of the checks (before the strengthening a seed prompted) against the seed
+before = {}
+for fn, sfx in (("oldwave.done", "-d"), ("old5.done", "")):
+    path = os.path.join(ROOT, "work", fn)
+    if os.path.exists(path):
+        for l in open(path, errors="replace"):
+            m = re.match(r"(C\d\d(?:-[a-z])?) .*SELFTEST .*: (CAUGHT|MISSED)", l)
+            if m:
+                before[m.group(1) + (sfx if "-" not in m.group(1) else "")] = m.group(2)
 for name in names:
     pid = name[:3]
     if pid not in props:
@@ -33,6 +42,7 @@ for name in names:
             ],
         },
         "checks_run_against_it": caught,
+        "checks_as_they_stood_when_the_seed_arrived": before.get(name, "not measured"),
         "first_failure_reported": [f[:400] for f in fails],
     }
     json.dump(meta, open(os.path.join(d, "meta.json"), "w"), indent=1)
